@@ -1195,6 +1195,13 @@ func main() {
 					fmt.Fprintf(os.Stderr, "warm %s: %v\n", e.ID, err)
 					fail = true
 				}
+				for _, sb := range e.Sub {
+					sb.ID = e.ID
+					if _, err := buildTestBinary(sb, workDir(e.ID+"."+sb.Name)); err != nil {
+						fmt.Fprintf(os.Stderr, "warm %s/%s: %v\n", e.ID, sb.Name, err)
+						fail = true
+					}
+				}
 			}(e)
 		}
 		wg.Wait()
